@@ -339,6 +339,41 @@ pub fn run(ctx: &mut RunCtx) -> Result<(), Violation> {
             }
         }
     }
+    // --- delivery history on one verifier: after a message has been accepted, the combinations
+    // that differ from it only in the version (or in one public input) are still rejected, and the
+    // honest one is still accepted.  (A verdict may depend on the message, never on what the
+    // verifier has seen before.)
+    for (hi, m) in honest.iter().enumerate() {
+        let env_v = ctx.env(&mut s);
+        let d = deliver(ctx, &node, m, m.version, &env_v)?;
+        if !d.accepted() {
+            return Err(Violation::new("I-integrity", "an honest message accepted earlier in the run is rejected on a later delivery"));
+        }
+        for vv in [PlonkVersion::V3, PlonkVersion::V2, PlonkVersion::V1] {
+            if vv == m.version {
+                continue;
+            }
+            let env_v = ctx.env(&mut s);
+            let d = deliver(ctx, &node, m, vv, &env_v)?;
+            ctx.st.fault("chan.version_skew_after_acceptance");
+            ctx.st.eval(sig ^ 0x12 ^ ((hi as u64) << 4) ^ (vv as u64), true);
+            if d.accepted() {
+                return Err(Violation::new(
+                    "I-integrity",
+                    format!("after it had been accepted under {}, the same message was accepted under {}", deploy::version_name(m.version), deploy::version_name(vv)),
+                ));
+            }
+        }
+        if !m.pi.is_empty() {
+            let m2 = apply(m, &ChanFault::PiAddOne(f.usize(m.pi.len())), None, &mut f);
+            let env_v = ctx.env(&mut s);
+            let d = deliver(ctx, &node, &m2, m.version, &env_v)?;
+            ctx.st.fault("chan.pi_plus_one_after_acceptance");
+            if d.accepted() {
+                return Err(Violation::new("I-integrity", "after the honest message had been accepted, the same proof was accepted with another public input"));
+            }
+        }
+    }
     ctx.st.sample(J::obj(vec![
         ("run", J::U(ctx.run)),
         ("program", J::s(crate::program::describe(&sc.prog))),
